@@ -179,6 +179,15 @@ fn c08(s: &Solution, grid: &[(f64, Vec<f64>)], specs: &[EventSpec], dir: f64, ym
                 v.push(("order".into(), format!("event {}: times not in integration order: {:e} then {:e}", i, w[0], w[1])));
             }
         }
+        // a direction-filtered crossing is one event: the same time twice means one crossing was reported by two steps
+        // (without a filter the library reports an exact zero on a step end from both sides; that case is not judged)
+        if sp.dir != Direction::All {
+            for w in te.windows(2) {
+                if w[0].to_bits() == w[1].to_bits() {
+                    v.push(("duplicate".into(), format!("event {} ({:?}): the time {:e} is reported twice", i, sp.dir, w[0])));
+                }
+            }
+        }
         for (t, y) in te.iter().zip(ye.iter()) {
             tags.push("event");
             // bracket between two consecutive accepted endpoints
